@@ -1,16 +1,20 @@
 use crate::Prop;
 pub mod c01;
+pub mod c02;
 pub mod c03;
 pub mod c06;
 pub mod c08;
+pub mod c13;
 pub mod c15;
 
 pub fn lookup(id: &str) -> Option<&'static dyn Prop> {
     match id {
         "C01" => Some(&c01::C01),
+        "C02" => Some(&c02::C02),
         "C03" => Some(&c03::C03),
         "C06" => Some(&c06::C06),
         "C08" => Some(&c08::C08),
+        "C13" => Some(&c13::C13),
         "C15" => Some(&c15::C15),
         _ => None,
     }
